@@ -320,6 +320,24 @@ class Engine:
             raise AnalysisError(f"SCCReader.read cannot be folded end to end: {e}")
 
 
+def _reader_after(self, doc, **kw):
+    """the reader object after it read `doc` (or the exception name)"""
+    self.n += 1
+    me = Stub("reader", {}, cls=self.fn.cls)
+    try:
+        if self.init is not None:
+            self.F.call_function(self.init, [], {}, self_value=me)
+        self.F.call_function(self.fn, [doc], dict(kw), self_value=me)
+    except FoldRaise as e:
+        return f"raises {e.exc_name}"
+    except AnalysisError as e:
+        raise AnalysisError(f"SCCReader.read cannot be folded end to end: {e}")
+    return me
+
+
+Engine.reader_after = _reader_after
+
+
 def tc(second, frame, drop):
     return f"00:00:{second:02d}{';' if drop else ':'}{frame:02d}"
 
